@@ -12,6 +12,7 @@ from specs.common import EventWorld, StrWalk, str_join_term, plain_name, EVENTS
 
 PROP = "C14"
 GROUNDABLE = True
+GROUND_SCOPES = (4,)   # the emitter's path world needs a path, its parent and their two byte encodings
 BATTERY = "c14_battery.py"
 
 
